@@ -182,6 +182,33 @@ func Spec(big int) []Node {
 		{Rel: "frac/sub/g.txt", Kind: "file", Mode: 0o644, Data: text("g", 60)},
 		{Rel: "frac/l", Kind: "symlink", Target: "f75.txt"},
 	}
+	// a root file system image: packaged as a tree at "/", most of its directories belong to the distribution's
+	// filesystem package
+	for _, n := range []Node{
+		{Rel: "rootfs", Kind: "dir", Mode: 0o755},
+		{Rel: "rootfs/usr", Kind: "dir", Mode: 0o750},
+		{Rel: "rootfs/usr/bin", Kind: "dir", Mode: 0o755},
+		{Rel: "rootfs/usr/bin/tool", Kind: "file", Mode: 0o755, Data: text("tool", 200)},
+		{Rel: "rootfs/usr/share", Kind: "dir", Mode: 0o755},
+		{Rel: "rootfs/usr/share/licenses", Kind: "dir", Mode: 0o755},
+		{Rel: "rootfs/usr/share/licenses/logrotate", Kind: "dir", Mode: 0o755},
+		{Rel: "rootfs/usr/share/licenses/logrotate/COPYING", Kind: "file", Mode: 0o644, Data: text("copying", 90)},
+		{Rel: "rootfs/etc", Kind: "dir", Mode: 0o750},
+		{Rel: "rootfs/etc/app", Kind: "dir", Mode: 0o750},
+		{Rel: "rootfs/etc/app/app.conf", Kind: "file", Mode: 0o640, Data: text("rootfs app.conf", 70)},
+		{Rel: "rootfs/etc/logrotate.d", Kind: "dir", Mode: 0o755},
+		{Rel: "rootfs/etc/logrotate.d/app", Kind: "file", Mode: 0o644, Data: text("logrotate", 80)},
+		{Rel: "rootfs/var", Kind: "dir", Mode: 0o755},
+		{Rel: "rootfs/var/lib", Kind: "dir", Mode: 0o755},
+		{Rel: "rootfs/var/lib/logrotate", Kind: "dir", Mode: 0o700},
+		{Rel: "rootfs/var/lib/logrotate/status", Kind: "file", Mode: 0o600, Data: text("status", 10)},
+		{Rel: "rootfs/opt", Kind: "dir", Mode: 0o755},
+		{Rel: "rootfs/opt/x", Kind: "dir", Mode: 0o700},
+		{Rel: "rootfs/opt/x/f", Kind: "file", Mode: 0o644, Data: text("f", 30)},
+		{Rel: "rootfs/sbin", Kind: "symlink", Target: "usr/sbin"},
+	} {
+		ns = append(ns, n)
+	}
 	// files whose sizes sit on block, buffer and streaming-threshold boundaries
 	ns = append(ns, Node{Rel: "sizes", Kind: "dir", Mode: 0o755})
 	for i, n := range BoundarySizes {
